@@ -44,6 +44,7 @@ type Msg struct {
 	At   time.Time // delivery instant (timed mode)
 	Seq  int
 	Dup  bool
+	Pre  bool // was already in flight when a keep-in-flight cut started: still arrives
 }
 
 // Violation is what a monitor reports.
